@@ -11,7 +11,14 @@ def dashList (s : String) : List String := if s == "-" then [] else splitList s
 def listDash (l : List String) : String := if l.isEmpty then "-" else ",".intercalate l
 
 def cfgOf (kv : List (String × String)) : PoolCfg :=
-  { kind := getS kv "kind", sharedClient := (getS kv "sc" "0") != "0" }
+  { kind := getS kv "kind", sharedClient := (getS kv "sc" "0") != "0",
+    reuse := getS kv "pre" == "1" || getS kv "arr" == "1" }
+
+/-- `3.0.1` → the entries of `tab` -/
+def deref (tab : List String) (s : String) : List String :=
+  (s.splitOn ".").map fun t => match t.toNat? with
+    | some i => tab.getD i s!"?{t}"
+    | none => s!"?{t}"
 
 /-- the observation could not be taken (environment, child process, timeout): nothing to judge -/
 def inconclusive (impl : String) : Option String :=
@@ -36,7 +43,7 @@ def handle : Handler := fun input impl =>
   -- the real code panicked inside a Shoot of a single-goroutine case (the framework recovered it): a runtime fault
   if impl.startsWith "PANIC" then ("-", s!"fail:fatal:{impl.take 160}") else
   match getS kv "mode" with
-  | "locks" => ("static", judgeStatic tbl Pandora.Gen.Locks.closures Pandora.Gen.Locks.handoverSites Pandora.Gen.Locks.pkgVars)
+  | "locks" => ("static", judgeStatic tbl Pandora.Gen.Locks.closures Pandora.Gen.Locks.handoverSites Pandora.Gen.Locks.pkgVars Pandora.Gen.Locks.ammoFlows Pandora.Gen.Locks.pooledEscapes Pandora.Gen.Locks.ammoWrites)
   | "alias" =>
     let c := cfgOf kv
     let o : AliasObs := { guns := getS okv "guns", ammo := getS okv "ammo", served := getS okv "served",
@@ -48,6 +55,25 @@ def handle : Handler := fun input impl =>
     -- predicted: they are judged (a harmless new cache changes them)
     let mobs := s!"guns=distinct ammo={ammo} served=yes shared={listDash (expectedShared c)} mutated={listDash (expectedMutated c)} late={getS okv "late" "-"} latemut={getS okv "latemut" "-"} closures={getS okv "closures" "-"}"
     (mobs, (extraConc okv).getD (judgeAlias tbl o))
+  | "ammo" =>
+    match lookup okv "tab", lookup okv "acq", lookup okv "shot", lookup okv "solo" with
+    | some tab, some acq, some shot, some solo =>
+      let c := cfgOf kv
+      let tb := tab.splitOn ";"
+      let o : AmmoObs := { acq := deref tb acq, shot := deref tb shot, solo := deref tb solo,
+                           altered := dashList (getS okv "altered" "-"), shared := dashList (getS okv "shared" "-") }
+      let v := judgeAmmo o
+      -- the model: every delivery is what the first pass of a fresh pool delivers for that file position, when it is
+      -- acquired and when it is shot; nothing another instance holds changes; outstanding ammo share read-only units only
+      let mobs := s!"served=yes tab={tab} acq={solo} shot={solo} solo={solo} altered={listDash (o.altered.filter syncLabel)} shared={listDash (o.shared.filter (ammoSharedAllowed c).contains)}"
+      (if v == "ok" then mobs else "-", if v != "ok" then v else (extraConc okv).getD "ok")
+    | _, _, _, _ => ("-", (extraConc okv).getD s!"fail:crash:unparsable observation {impl.take 120}")
+  | "retain" =>
+    match getN? okv "calls", lookup okv "drift" with
+    | some _, some d =>
+      let v := judgeRetain (dashList d)
+      (s!"calls={(getN? kv "calls").getD 0} drift=-", if v != "ok" then v else (extraConc okv).getD "ok")
+    | _, _ => ("-", (extraConc okv).getD s!"fail:crash:unparsable observation {impl.take 120}")
   | "isolate" =>
     match lookup okv "together", lookup okv "solo" with
     | some tg, some so =>
@@ -96,7 +122,12 @@ def handle : Handler := fun input impl =>
   | "hammer" =>
     let o : ConcObs := { fatal := getS okv "fatal" "-", detector := getS okv "detector", races := getS okv "races" "-" }
     let calls := (getN? kv "n").getD 0 * (getN? kv "calls").getD 0
-    (s!"run=- calls={calls} fatal=- detector={o.detector} races=-", judgeConc tbl (hammerLocks (getS kv "obj")) o)
+    -- a joint result the goroutines' calls must have (ammo ids pairwise distinct): broken without any data race when an
+    -- update is made of two atomic halves
+    let v := if (getS okv "run").startsWith "dup" then
+        s!"fail:lost-update:{getS kv "obj"}: {(getS okv "run").drop 4} of the values handed to {(getN? kv "n").getD 0} goroutines were handed out twice"
+      else judgeConc tbl (hammerLocks (getS kv "obj")) o
+    (s!"run=- calls={calls} fatal=- detector={o.detector} races=-", v)
   | m => ("-", s!"fail:driver:unknown mode {m}")
 
 end Pandora.Drv.C11
